@@ -16,6 +16,7 @@ type c14Case struct {
 	Feats  []Feat `json:"features"`
 	Via    string `json:"via"` // variants | samvariants
 	Sorted bool   `json:"gffsorted,omitempty"` // GFF rows in coordinate order across features instead of grouped by feature
+	AnnoRef bool  `json:"annoref,omitempty"`   // no --reference: the reference is the annotation's own sequence; one query is named like the GFF ##FASTA record
 	AltCase bool  `json:"altcase,omitempty"`   // sequence letters in the other case: GenBank ORIGIN upper-case, GFF ##FASTA lower-case
 	RefRow string `json:"refrow"`
 	QRows  []string `json:"queryrows"`
@@ -299,12 +300,25 @@ func c14Run(c c14Case, format string) (Obs, map[string]string) {
 			recs = append(recs, SamRec{Name: fmt.Sprintf("q%d", i), Pos: 1, Cigar: opsOf(cols), Seq: string(seq)})
 		}
 		call = Call{Cmd: "samvariants", Sam: samText(len(c.Genome), recs), Ref: fastaOf("ref", c.Genome), Anno: anno, AnnoSuffix: format, Threads: 2}
+		if c.AnnoRef {
+			call.NoRefFile = true
+		}
 	} else {
 		recs := []string{"ref", c.RefRow}
+		if c.AnnoRef {
+			recs = nil // every record of the alignment is a query, including one called "ref" like the ##FASTA record
+		}
 		for i, q := range c.QRows {
-			recs = append(recs, fmt.Sprintf("q%d", i), q)
+			name := fmt.Sprintf("q%d", i)
+			if c.AnnoRef && i == 1 {
+				name = "ref"
+			}
+			recs = append(recs, name, q)
 		}
 		call = Call{Cmd: "variants", Msa: fastaOf(recs...), RefID: "ref", Anno: anno, AnnoSuffix: format, Threads: 2}
+		if c.AnnoRef {
+			call.RefID = ""
+		}
 	}
 	o := call.Canon()
 	if o.Outcome != "returned" || o.HasErr {
@@ -462,6 +476,14 @@ func init() {
 						cs.Sorted = true
 						c14Check(cs, res)
 						res.States += len(rows)
+					}
+					if idx%7 == 3 {
+						// no --reference: the annotation's own sequence is the reference (and nothing but it is left out of the output)
+						cr := c
+						cr.AnnoRef = true
+						cr.QRows = rows[:len(rows)/3]
+						c14Check(cr, res)
+						res.States += len(cr.QRows)
 					}
 					if idx%5 == 0 {
 						// the annotation's own sequence in the other letter case (GenBank ORIGIN upper, ##FASTA lower)
